@@ -284,6 +284,7 @@ class MQTTBaseProtocol(Protocol):
         self.IDLE        = IdleState(self)
         self.CONNECTING  = ConnectingState(self)
         self.CONNECTED   = ConnectedState(self)
+        self.CLOSING     = BaseState(self)  # DISCONNECT sent: nothing is allowed until the transport closes
         self.state       = self.IDLE
         self.factory     = factory
         self._initialT   = self.TIMEOUT_INITIAL # Initial timeout for retransmissions
@@ -511,12 +512,7 @@ class MQTTBaseProtocol(Protocol):
 
     def connectionLost(self, reason):
         log.debug("--- Connection to MQTT Broker lost")
-        if self._pingReq.timer:
-            self._pingReq.timer.stop()
-            self._pingReq.timer = None
-        if self._pingReq.alarm:
-            self._pingReq.alarm.cancel()
-            self._pingReq.alarm = None
+        self._stopKeepalive()
         self.doConnectionLost(reason)
         self.state = self.IDLE
         # The disconnect callback is invoked in another reactor loop cycle
@@ -672,6 +668,12 @@ class MQTTBaseProtocol(Protocol):
         Performs the actual work of disconnecting
         '''
         log.debug("==> {packet:7}",packet="DISCONNECT")
+        # DISCONNECT is the last packet on the connection [MQTT-3.14.4-2]:
+        # no keepalive, no retransmission and no new request may follow it
+        # while the transport is still closing.
+        self._stopKeepalive()
+        self.doCancelAlarms()
+        self.state = self.CLOSING
         self.transport.write(request.encode())
         self.transport.loseConnection()
 
@@ -722,6 +724,27 @@ class MQTTBaseProtocol(Protocol):
         To be subclassed
         '''
         pass
+
+    # ------------------------------------------------------------------------
+
+    def doCancelAlarms(self):
+        '''
+        Cancel pending retransmission alarms. To be subclassed
+        '''
+        pass
+
+    # ------------------------------------------------------------------------
+
+    def _stopKeepalive(self):
+        '''
+        Stops the PINGREQ loop and the pending PINGRESP alarm
+        '''
+        if self._pingReq.timer:
+            self._pingReq.timer.stop()
+            self._pingReq.timer = None
+        if self._pingReq.alarm:
+            self._pingReq.alarm.cancel()
+            self._pingReq.alarm = None
 
     # --------------
     # Helper methods
